@@ -36,6 +36,12 @@ let () =
   register "spec.doc" (function [d] ->
       let doc = parse_doc d in
       (if TextDoc.wf_fields doc then "wf " else "NOTWF ") ^ Ttglue.string_of_tape (TextDoc.flatten doc) | _ -> "BADCASE");
+  (* >>> w_c01 (wave 5): spec.docm <doc> : TextDocMixed.wfm_fields (wf_doc_mixed), whether the document lies beyond wf_doc, and the expected tape *)
+  register "spec.docm" (function [d] ->
+      let doc = parse_doc d in
+      (if TextDocMixed.wfm_fields doc then "wfm " else "NOTWFM ") ^ (if TextDocMixed.beyond_wf_doc doc then "beyond " else "within ") ^
+      Ttglue.string_of_tape (TextDoc.flatten doc) | _ -> "BADCASE");
+  (* <<< w_c01 *)
   (* spec.render <doc> <bom> <gap,gap,...> : the rendering under the given gaps, and gap_ok of every gap *)
   register "spec.render" (function [d; bom; gaps] ->
       let doc = parse_doc d in
